@@ -698,4 +698,6 @@ def run(run: Run):
     run.floor('C14.R4', 3)
     run.floor('C14.R5', 12)
     run.floor('C14.R6', 8)
+    from .common import shared_mechanisms as _shared
+    _shared(run, 'C14', 12, ['stored-values', 'fresh-parse'])
     return INFO
